@@ -27,6 +27,9 @@ def neighbor_scale(ctx, I, sizes, budget):
         y = nprng.randint(0, c, n_rows)
         y[:c] = np.arange(c)
         yv = nprng.randint(0, c, m)
+        absent = rng.random() < 0.5
+        if absent:
+            yv = yv % (c - 1)            # one training class never occurs among the validation labels: the null utility is then exactly 0
         D = np.sqrt(((X[:, None, :] - Xv[None, :, :]) ** 2).sum(axis=2))
         if mode == "groups":
             n_units = min(400, max(2, n_rows // rng.randint(2, 20)))
@@ -52,7 +55,7 @@ def neighbor_scale(ctx, I, sizes, budget):
         err = abs(total - exact)
         errs.append((n_rows, float(err)))
         ctx.case(("scale", n_rows, m, mode, hits), nontrivial=(exact != 0), sample=dict(n_rows=n_rows, m=m, classes=c, mode=mode, exact=str(exact), got=float(total)),
-                 part="neighbor-scale", mode=mode)
+                 part="neighbor-scale", mode=mode, class_absent_from_validation=absent)
         ctx.maxi(rows=n_rows, val_points=m, classes=c)
         if not np.all(np.isfinite(scores)) or err > Fraction(1, 10 ** 9) * 2:
             ctx.mismatch("neighbor scores do not sum to full-data utility minus null utility", dict(n_rows=n_rows, m=m, classes=c, mode=mode, rng="np.RandomState from VERIF_SEED"),
@@ -101,7 +104,7 @@ def run(ctx):
     I = load_impl(ctx)
     q = ctx.tier == "quick"
     if q:
-        sizes = [(200, 20), (500, 30), (1000, 50), (2000, 50)]
+        sizes = [(200, 20), (300, 25), (500, 30), (800, 40), (1000, 50), (2000, 50)]
     else:
         sizes = [(2000, 100), (5000, 100), (10000, 200), (20000, 300), (40000, 100), (65536, 50)]
     neighbor_scale(ctx, I, sizes, 60 if q else 600)
